@@ -227,13 +227,29 @@ def closed_extents(table):
     return exts, ints
 
 
-def concept_case(rng, max_concepts):
+def graded(m):
+    """Is the order given by matrix m graded (all maximal chains between two elements equally long)?
+    Checked through: every cover step raises the length of the longest chain from the bottom by one."""
+    k = len(m)
+    below = [[j for j in range(k) if j != i and m[j][i]] for i in range(k)]
+    rank = {}
+    for i in sorted(range(k), key=lambda i: len(below[i])):
+        rank[i] = 1 + max([rank[j] for j in below[i]], default=-1)
+    for i in range(k):
+        for j in below[i]:
+            if not any(x != j and m[j][x] for x in below[i]) and rank[i] != rank[j] + 1:
+                return False
+    return True
+
+
+def concept_case(rng, max_concepts, min_concepts=3, dim=4, want_nongraded=False):
     from harness import gen
-    for _ in range(100):
-        t, tk = gen.random_table(rng, 4, 4)
+    for _ in range(400):
+        t, tk = gen.random_table(rng, dim, dim, min_h=max(1, dim - 2), min_w=max(1, dim - 2))
         exts, ints = closed_extents(t)
-        if 3 <= len(exts) <= max_concepts:
-            break
+        if min_concepts <= len(exts) <= max_concepts:
+            if not want_nongraded or not graded([[set(a) <= set(b) for b in exts] for a in exts]):
+                break
     k = len(exts)
     m = [[set(a) <= set(b) for b in exts] for a in exts]
     top, bot = k - 1, 0                                      # all objects / the least extent
@@ -272,21 +288,24 @@ def concept_case(rng, max_concepts):
     ops.append(['eq', rest, True])
     return {'matrix': m, 'kind': 'B', 'init': [top, bot], 'cache': True, 'cd': False, 'ops': ops,
             'level': 'concept', 'extents': [list(e) for e in exts], 'intents': ints,
-            'table': t, 'okind': 'concepts'}
+            'table': t, 'okind': 'concepts' if k < 10 else ('concepts-large-graded' if graded(m) else
+                                                             'concepts-large-nongraded')}
 
 
 def generate(rng, tier):
     cases = []
     if tier == 'thorough':
-        n_hist, n_ctor, n_conc, max_ops, max_conc = 40000, 3000, 6000, 30, 12
+        n_hist, n_ctor, n_conc, max_ops, max_conc, n_big = 36000, 3000, 5000, 30, 12, 1200
     else:
-        n_hist, n_ctor, n_conc, max_ops, max_conc = 1500, 150, 300, 12, 8
+        n_hist, n_ctor, n_conc, max_ops, max_conc, n_big = 1400, 150, 260, 12, 8, 50
     for _ in range(n_hist):
         cases.append(poset_case(rng, max_ops))
     for _ in range(n_ctor):
         cases.append(ctor_refusal_case(rng))
     for _ in range(n_conc):
         cases.append(concept_case(rng, max_conc))
+    for i in range(n_big):        # larger lattices: 10-16 concepts, two thirds of them not graded
+        cases.append(concept_case(rng, 16, min_concepts=10, dim=6, want_nongraded=(i % 3 != 0)))
     return cases
 
 
